@@ -469,6 +469,70 @@ def check_complete(ctx: Ctx):
     return n
 
 
+
+def _offset_layout(n, dim):
+    """'CF' (components first, (dim, n)), 'PF' (points first, (n, dim)), 'MIXED' (a components-first array reshaped to rows) or None"""
+    flip = {"CF": "PF", "PF": "CF"}
+    if isinstance(n, (ast.List, ast.Tuple)) and len(n.elts) == dim:
+        return "CF"
+    if isinstance(n, ast.Attribute) and n.attr == "T":
+        return flip.get(_offset_layout(n.value, dim), _offset_layout(n.value, dim))
+    if isinstance(n, ast.Subscript) and U(n.value) in ("np.c_",):
+        return "PF"
+    if isinstance(n, ast.Subscript) and U(n.value) in ("np.r_",):
+        return None
+    if isinstance(n, ast.Call):
+        name = n.func.attr if isinstance(n.func, ast.Attribute) else (n.func.id if isinstance(n.func, ast.Name) else "")
+        recv = n.func.value if isinstance(n.func, ast.Attribute) and U(n.func.value) not in ("np", "numpy") else None
+        arg0 = recv if recv is not None else (n.args[0] if n.args else None)
+        rest = n.args if recv is not None else n.args[1:]
+        if arg0 is None:
+            return None
+        inner = _offset_layout(arg0, dim)
+        if name in ("array", "asarray", "asanyarray", "ascontiguousarray", "squeeze", "copy", "astype"):
+            return inner
+        if name == "transpose" and not rest:
+            return flip.get(inner, inner)
+        if name in ("column_stack",):
+            return "PF" if inner == "CF" else None
+        if name in ("vstack", "row_stack"):
+            return inner
+        if name == "stack":
+            ax = next((k.value for k in n.keywords if k.arg == "axis"), rest[0] if rest else None)
+            axv = U(ax) if ax is not None else "0"
+            if inner != "CF":
+                return None
+            return "CF" if axv == "0" else ("PF" if axv in ("-1", "1") else None)
+        if name == "reshape":
+            shape = rest[0] if len(rest) == 1 and isinstance(rest[0], (ast.Tuple, ast.List)) else (ast.Tuple(elts=list(rest)) if rest else None)
+            if shape is None or not isinstance(shape, (ast.Tuple, ast.List)):
+                return None
+            txt = [U(e) for e in shape.elts]
+            if len(txt) == 2 and txt[0] == "-1" and txt[1] in (str(dim), "self.dim", "dim"):
+                return "MIXED" if inner == "CF" else inner
+            return None
+        return None
+    if isinstance(n, ast.BinOp) and isinstance(n.op, ast.Mult):
+        ls, rs = _offset_layout(n.left, dim), _offset_layout(n.right, dim)
+        return ls or rs
+    return None
+
+
+def _strip_layout(n):
+    """the product inside transpositions / conversions / reshapes of the offsets"""
+    while True:
+        if isinstance(n, ast.Attribute) and n.attr == "T":
+            n = n.value
+        elif isinstance(n, ast.Call) and isinstance(n.func, ast.Attribute) and n.func.attr in ("transpose", "array", "asarray", "reshape", "ascontiguousarray"):
+            if U(n.func.value) not in ("np", "numpy"):
+                n = n.func.value
+            elif n.args:
+                n = n.args[0]
+            else:
+                return n
+        else:
+            return n
+
 # --------------------------------------------------------------------------- UNITVEC
 UNITVEC = {
     2: ["numpy.cos(A1)", "numpy.sin(A1)"],
@@ -548,6 +612,16 @@ def check_unitvec(ctx: Ctx, cname: str):
         ctx.violate("UNITVEC", site, (fi, rets[0]), f"interface position is not `self.position + offset`: {U(ex)[:90]}")
         return
     off = off[0]
+    # layout of the offsets: the components are written as a list [c0, c1, …] (components first, shape (dim, n)); the points
+    # must come out as rows (n, dim).  Only a transposition turns one into the other — a reshape of a components-first array
+    # to (-1, dim) mixes the coordinates of different points as soon as there is more than one direction.
+    lay = _offset_layout(off, dim)
+    if lay == "MIXED":
+        ctx.violate("UNITVEC", site, (fi, rets[0]), f"the offsets `{U(off)[:80]}` are a components-first array (shape ({dim}, n)) reshaped to (-1, {dim}): for more than one direction the "
+                    "coordinates of different points are mixed, so the returned points (and the triangulation built from them) do not lie on the interface; only a transposition arranges "
+                    "one point per row")
+        return
+    off = _strip_layout(off)
     # offset = dist[:, None] * transpose([..])
     ok_shape = isinstance(off, ast.BinOp) and isinstance(off.op, ast.Mult)
     vec, dist_call = None, None
@@ -1202,6 +1276,51 @@ def check_volume_approx(ctx: Ctx):
     return n
 
 
+def check_size_reads_shape(ctx: Ctx, rule="INTEGRAL"):
+    """the reported volume and surface area of a perturbed droplet are integrals over the perturbed body: for every concrete
+    class the getter that the MRO selects either refuses (raises NotImplementedError on every path) or depends on the
+    amplitudes — directly or through a shape method of the droplet.  A getter that is a function of the radius alone reports
+    the sphere's value, which is wrong at second order in the amplitudes."""
+    m = ctx.model
+    SHAPE = {"amplitudes", "interface_distance", "interface_position", "interface_curvature", "_get_mapping"}
+    n = 0
+    for cname in CLASSES:
+        ci = m.cls(cname)
+        for member in ("volume", "surface_area"):
+            fi = m.method(ci, member)
+            if fi is None:
+                continue
+            body = [st for st in fi.node.body if not (isinstance(st, ast.Expr) and isinstance(st.value, ast.Constant))]
+            refuses = bool(body) and isinstance(body[0], ast.Raise) and "NotImplementedError" in U(body[0])
+            reads = set()
+            seen = set()
+
+            def walk(f, depth=0):
+                if f.qualname in seen or depth > 4:
+                    return
+                seen.add(f.qualname)
+                for x in ast.walk(f.node):
+                    if isinstance(x, ast.Attribute) and U(x.value) == "self":
+                        if x.attr in SHAPE:
+                            reads.add(x.attr)
+                        else:
+                            for c in m.mro(ci):
+                                for g in c.methods.get(x.attr, []):
+                                    if g.kind != "setter" and g.qualname.split(".")[-2:-1] != ["SphericalDroplet"] and g.qualname.split(".")[-2:-1] != ["DropletBase"]:
+                                        walk(g, depth + 1)
+                                if c.methods.get(x.attr):
+                                    break
+
+            walk(fi)
+            n += 1
+            ctx.decide(refuses or bool(reads), rule, f"droplets.droplets.{cname}.{member}:reads-shape", fi,
+                       ("refuses (NotImplementedError)" if refuses else f"depends on the shape ({', '.join(sorted(reads))})"),
+                       f"{cname}.{member} is served by {fi.qualname}, which never reads the amplitudes (nor a shape method): it reports the value of the unperturbed sphere, but the "
+                       f"{'area' if member == 'surface_area' else 'volume'} of the body bounded by interface_distance differs at second order in the amplitudes — the reported value is not the integral")
+    return n
+
+
+
 def check(ctx: Ctx):
     m = ctx.model
     ctx.explain(
@@ -1235,6 +1354,12 @@ def check(ctx: Ctx):
     check_volume_2d(ctx)
     check_volume_3d(ctx)
     check_volume_approx(ctx)
+    check_size_reads_shape(ctx)
+    from ..rules import purity as _purity
+
+    _purity.check_stateless(ctx, [f"droplets.droplets.{c}.{meth}" for c in CLASSES + ["PerturbedDropletBase"] for meth in
+                                  ("volume", "surface_area", "volume_approx", "surface_area_approx", "interface_distance", "interface_curvature", "interface_position")
+                                  if m.has_func(f"droplets.droplets.{c}.{meth}")])
     check_pairs(ctx)
     from ..rules import render as _render
 
@@ -1257,7 +1382,8 @@ def check(ctx: Ctx):
     ctx.expect("UNITVEC", 6)
     ctx.expect("DERIV", 4)
     ctx.expect("FORMULA", 3)
-    ctx.expect("INTEGRAL", 2)
+    ctx.expect("INTEGRAL", 8)
+    ctx.expect("STATELESS", 10)
     ctx.expect("PAIRS", 2)
     ctx.expect("HARMONIC", 6)
     ctx.trust("first-order mean curvature of r=R(1+εB): 2D κ = 1/R − (δr+δr'')/R², 3D H = 1/R − (2δr + Δ_Ω δr)/(2R²) with Δ_Ω Y_l = −l(l+1)Y_l",
